@@ -332,8 +332,23 @@ class Effects:
                     rs, ri = roots(n.value)
                     ch |= bind(n.target, rs, ri)
                 elif isinstance(n, (ast.For, ast.comprehension)):
-                    rs, ri = roots(n.iter)
-                    ch |= bind(n.target, set(ri), set(ri))
+                    it = n.iter
+                    fname = dotted(it.func) if isinstance(it, ast.Call) else None
+                    if fname == "zip" and isinstance(n.target, (ast.Tuple, ast.List)) and not it.keywords \
+                            and len(n.target.elts) == len(it.args) \
+                            and not any(isinstance(a, ast.Starred) for a in it.args) \
+                            and not any(isinstance(e, ast.Starred) for e in n.target.elts):
+                        # for a, b in zip(xs, ys): a ranges over the items of xs, b over those of ys (not over both)
+                        for tgt, arg in zip(n.target.elts, it.args):
+                            _rs, ri = roots(arg)
+                            ch |= bind(tgt, set(ri), set(ri))
+                    elif fname == "enumerate" and isinstance(n.target, (ast.Tuple, ast.List)) and len(n.target.elts) == 2 \
+                            and it.args and not isinstance(it.args[0], ast.Starred):
+                        _rs, ri = roots(it.args[0])             # the counter is a fresh integer
+                        ch |= bind(n.target.elts[1], set(ri), set(ri))
+                    else:
+                        rs, ri = roots(n.iter)
+                        ch |= bind(n.target, set(ri), set(ri))
                 elif isinstance(n, ast.withitem) and n.optional_vars is not None:
                     rs, ri = roots(n.context_expr)
                     ch |= bind(n.optional_vars, rs, ri)
